@@ -86,12 +86,14 @@ EXPORT errno_t fopen_s(FILE *restrict *restrict streamptr,
     }
 
     if (unlikely(filename == NULL)) {
+        *streamptr = NULL;
         invoke_safe_str_constraint_handler("fopen_s: filename is null", NULL,
                                            ESNULLP);
         return ESNULLP;
     }
 
     if (unlikely(mode == NULL)) {
+        *streamptr = NULL;
         invoke_safe_str_constraint_handler("fopen_s: mode is null", NULL,
                                            ESNULLP);
         return ESNULLP;
